@@ -18,7 +18,7 @@ import (
 func init() {
 	register(&propDef{
 		id:      "C28",
-		explain: "Structural necessary condition of 'Args behaves as an insertion-ordered multimap': every function that moves elements inside a []argsKV (element stores fed by element loads, or copy() within one slice) is order-preserving by construction - copy shifts left by a constant, and no element is loaded from an index derived from the slice length (the tail) and stored at an index that is not - and every shortening of Args.args is [:0], the result of such a routine, or happens inside one; (coupling) every function of the Args machinery that assigns an entry's value also assigns its no-value flag on every path. Not decided: agreement of Peek/Set/Add with a reference model over operation sequences, parsing and encoding.",
+		explain: "Structural necessary condition of 'Args behaves as an insertion-ordered multimap': every function that moves elements inside a []argsKV (element stores fed by element loads, or copy() within one slice) is order-preserving by construction - copy shifts left by a constant, and no element is loaded from an index derived from the slice length (the tail) and stored at an index that is not; an entry moved to another slot has its old slot rewritten as well (swap, park or shift), so no two slots share key/value buffers - and every shortening of Args.args is [:0], the result of such a routine, or happens inside one; (coupling) every function of the Args machinery that assigns an entry's value also assigns its no-value flag on every path. Not decided: agreement of Peek/Set/Add with a reference model over operation sequences, parsing and encoding.",
 		run: func(p *Prog, r *Report) {
 			runKVOrder(p, r, "C28")
 			runKVCoupling(p, r)
@@ -195,6 +195,32 @@ func classifyKVRoutines(p *Prog) map[*ssa.Function]*kvRoutine {
 						r.problem = "an element taken from the tail of the slice (index derived from len) is stored at a position that is not in the tail: the relative order of the remaining entries changes"
 						r.pos = in.Pos()
 					}
+					// ownership: an entry owns its key/value buffers and slots past the new length are reused by the next
+					// append. Moving an entry by plain copy leaves two slots sharing one pair of buffers; the slot it came
+					// from has to be rewritten too (swap, park of a saved entry, or a copy() shift starting at it).
+					if src.Index != ia.Index && r.problem == "" {
+						rewritten := false
+						for _, bb := range fn.Blocks {
+							for _, i2 := range bb.Instrs {
+								switch w := i2.(type) {
+								case *ssa.Store:
+									if a2, ok := w.Addr.(*ssa.IndexAddr); ok && i2 != ssa.Instruction(in) && isKVSlice(a2.X.Type()) && a2.Index == src.Index {
+										rewritten = true
+									}
+								case *ssa.Call:
+									if bi, ok := w.Call.Value.(*ssa.Builtin); ok && bi.Name() == "copy" && len(w.Call.Args) == 2 {
+										if d, ok := w.Call.Args[0].(*ssa.Slice); ok && d.Low == src.Index {
+											rewritten = true
+										}
+									}
+								}
+							}
+						}
+						if !rewritten {
+							r.problem = "an entry is moved to another slot by plain copy and the slot it came from keeps pointing at the same key/value buffers: when that slot (now past the new length) is reused by the next append, the bytes of the live entry are overwritten"
+							r.pos = in.Pos()
+						}
+					}
 				}
 			}
 		}
@@ -267,7 +293,7 @@ func runKVOrder(p *Prog, r *Report, prop string) {
 			continue
 		}
 		nrt++
-		r.Check("E11", "element moves in "+funcName(fn)+" are order-preserving", rt.problem == "", p.Pos(firstPos(fn, rt.pos)),
+		r.Check("E11", "element moves in "+funcName(fn)+" are order-preserving and leave every buffer with one owner", rt.problem == "", p.Pos(firstPos(fn, rt.pos)),
 			fmt.Sprintf("%d element moves; %s", rt.moves, rt.problem))
 	}
 	floorR := 2
